@@ -19,7 +19,7 @@ ASSUMPTIONS = ['counter of copy i of N: $ -> i, zero padded to the run width, @M
                'maxRepeat M: every completed copy (children first, document order) uses one unit of a global budget; a repeater stops after the copy at whose '
                'completion the budget is exhausted; repeaters met later yield one copy',
                'under a truncating limit only copy counts and forward numbering are compared (the statement defines reverse numbering for complete repeaters)',
-               '*0, @^ (parent numbering) and numbering modifiers without any repeater are outside the statement and not generated']
+               '@^ (parent numbering) and numbering modifiers without any repeater are outside the statement and not generated; `*0` (exactly 0 copies) is generated without a maxRepeat limit only: under an exhausted limit the two clauses of the statement disagree about it']
 FLOORS = {'quick': {'enum:numbering': 6000, 'enum:limit': 5000, 'random': 2400, 'random:limit': 3000},
           'thorough': {'enum:numbering': 6000, 'enum:limit': 28000, 'random': 75000, 'random:limit': 150000}}
 REQUIRED_MONITORS = ['oracle:copies-and-counters', 'oracle:copies-direct-entry', 'probe:repeat-guard-monotone', 'probe:repeater-stack-balanced']
@@ -377,6 +377,10 @@ def rand_tree(rng, depth=0, counter=None, copies=None):
     return nodes
 
 
+def has_zero_rep(nodes):
+    return any(n.rep == 0 or has_zero_rep(n.ch) for n in nodes)
+
+
 def out_size(nodes):
     "number of output elements of the written tree without any limit"
     return sum((n.rep or 1) * ((1 if n.kind == 'e' else 0) + out_size(n.ch)) for n in nodes)
@@ -454,7 +458,7 @@ def run_shard(desc, ctx):
                 check_direct(mon, nodes, 0 if k % 5 == 0 else (-1 if k % 7 == 0 else m), 'enum:limit-direct')
         else:
             rng = ctx.rng
-            REPS['pool'] = [1, 2, 2, 3, 3, 4, 5, 7, 12] * (8 if ctx.tier == 'quick' else 3) + [13, 16, 25, 40, 101]
+            REPS['pool'] = [1, 2, 2, 3, 3, 4, 5, 7, 12] * (8 if ctx.tier == 'quick' else 3) + [13, 16, 25, 40, 101, 0, 0, 0]        # (`*0`: exactly N copies, N = 0)
             done = 0
             while done < desc['n']:
                 counter = itertools.count(1)
@@ -464,6 +468,8 @@ def run_shard(desc, ctx):
                     continue
                 done += 1
                 m = rng.choice([None, None, None, None, None, 1, 2, 3, 5, 8, 13, 21, 50, 99, 100, 250])
+                if has_zero_rep(nodes):
+                    m = None        # "exactly N copies" (0) and "yields just one copy" (under an exhausted limit) disagree about `*0`: the limit clause is not driven with it
                 jsx = rng.random() < 0.15
                 ph = rng.random() < 0.2
                 STYLE['cap'] = jsx
